@@ -181,3 +181,27 @@ fn tx_serialize_with_seed_contract() {
 		}
 	}
 }
+
+/// Forwarder::serialize from the outside of one nested collection: whatever happened inside (deserializer
+/// failed on its own at any step, or a serializer step failed on its own), the forwarder's captured
+/// (source, error) pair names the side that failed first and carries that side's own error onwards.
+#[kani::proof]
+#[kani::unwind(4)]
+fn tx_forwarder_serialize_contract() {
+	let fwd = Forwarder::new(MockDe { depth: 1 });
+	let r = fwd.serialize(MockSer);
+	let src = src_code(fwd.0.error_source());
+	let captured = fwd.0.into_error();
+	match r {
+		Ok(()) => { assert!(first() == 0 && captured.is_none()); kani::cover!(unsafe { DE_POS } >= 4); }
+		Err(s) => {
+			let de_err = match captured { Some(e) => e, None => { assert!(false, "deserializer error lost"); return; } };
+			assert!(first() != 0);
+			assert!(src == first(), "nested failure re-attributed to the other side by Forwarder::serialize");
+			if first() == 1 { assert!(!de_err.synthetic && de_err.id == unsafe { FIRST_ID }, "the deserializer's own error must travel on"); assert!(s.synthetic); }
+			else { assert!(!s.synthetic && s.id == unsafe { FIRST_ID }, "the serializer's own error must travel on"); }
+			kani::cover!(first() == 1 && unsafe { DE_POS } >= 2, "deserializer failed inside the nested collection");
+			kani::cover!(first() == 2 && unsafe { SER_POS } >= 1, "serializer failed inside the nested collection");
+		}
+	}
+}
